@@ -26,7 +26,7 @@ def plan(tier):
 
 
 def required_counters(tier):
-    return ["mask_emptied_group", "mask_all_false", "perturbed_runs", "row_aligned_cases", "slice_negative", "pos_repeated", "strategy:threads", "strategy:chunked_keys"]
+    return ["mask_emptied_group", "mask_all_false", "perturbed_runs", "row_aligned_cases", "slice_negative", "pos_repeated", "strategy:threads", "strategy:chunked_keys", "strategy:arrow_chunked_keys", "slice_over_chunked_keys", "slice_negative_start_over_chunked_keys"]
 
 
 def features(case):
@@ -61,6 +61,13 @@ def nontrivial(case):
 
 def check(case, ctx):
     st = case.get("strategy")
+    m = case.get("mask")
+    if m and m["kind"] == "slice" and (case.get("kc") == ["pa_chunked"] or "chunk_threshold" in (st or {})):
+        ctx.count("slice_over_chunked_keys")
+        if (m["start"] or 0) < 0:
+            ctx.count("slice_negative_start_over_chunked_keys")
+    if case.get("kc") == ["pa_chunked"]:
+        ctx.count("strategy:arrow_chunked_keys")
     if not st:
         return _check(case, ctx)
     ctx.count("strategy:" + ("threads" if "rows_per_thread" in st else "chunked_keys"))
@@ -133,6 +140,19 @@ def gen_case(rng, dtypes):
         case["strategy"] = {"rows_per_thread": max(1, n // int(rng.integers(2, 5)))}
     elif r < 0.35 and len(case["keys"]) == 1 and case["keys"][0]["kind"] != "cat" and n >= 4:
         case["strategy"] = {"chunk_threshold": int(gen.pick(rng, [2, 4])), "key_chunks": int(rng.integers(2, 5))}
+    elif r < 0.45 and len(case["keys"]) == 1 and case["keys"][0]["kind"] not in ("cat", "bool", "range") and n >= 4 and not case.get("kc"):
+        case["kc"] = ["pa_chunked"]
+        case["ksplits"] = gen.random_splits(rng, n, 5) or [1]
+    if (case.get("kc") == ["pa_chunked"] or "chunk_threshold" in (case.get("strategy") or {})) and case["op"] in ops.RED and rng.random() < 0.6:
+        # a slice over chunk-factorized keys leaves out whole key chunks: every way of writing its bounds (None, from the front, from the back)
+        def bound(lo):
+            q = rng.random()
+            if q < 0.2:
+                return None
+            if q < 0.6:
+                return int(rng.integers(lo, n + 1))
+            return -int(rng.integers(1, n + 1))
+        case["mask"] = {"kind": "slice", "start": bound(0), "stop": gen.pick(rng, [None, None, bound(1)]), "step": None}
     return case
 
 
